@@ -8,5 +8,5 @@ for d in /tmp/seed/C*/out/*/; do
   pid=$(echo $d | cut -d/ -f4); n=$(basename $d)
   [ -f "$d/patch.diff" ] && [ -f "$d/demo.py" ] || continue
   [ -f "seeded/$pid-$n/meta.json" ] && continue
-  tools/eval_seed.py $pid $n ${REL[$pid]} 2>&1 | cut -c1-220
+  if [ -n "$OWN_ONLY" ]; then tools/eval_seed.py $pid $n 2>&1 | cut -c1-220; else tools/eval_seed.py $pid $n ${REL[$pid]} 2>&1 | cut -c1-220; fi
 done
